@@ -347,7 +347,7 @@ def facts(begin):
     for h in p.get('hdrs') or []:
         f['hdr:%s:%s' % (h['setter'], h['val'])] = True
         f['val:' + h['val']] = True
-    if any(s['cid'] in ('crlf', 'nul', 'ctl', 'lf', 'cr') for s in p['embeds']):
+    if any(s['cid'] in ('crlf', 'nul', 'ctl', 'lf', 'cr') for s in p['embeds'] + p['atts']):   # (WithFileContentID works for attachments too)
         f['cid_with_control'] = True
     if len(begin.get('ops') or []) > 1:
         f['rerender'] = True
